@@ -410,9 +410,14 @@ pub assume_specification<T, F: FnMut(&T, &T) -> Ordering> [<[T]>::sort_unstable_
 // mutability. `pushed(q, x)` is a monotone ghost fact: x has been pushed to q.
 #[verifier::external_body] #[verifier::reject_recursive_types(T)] pub struct SegQueue<T> { _t: T }
 pub uninterp spec fn pushed<T>(q: &SegQueue<T>, item: T) -> bool;
+// `push_allowed(q, x)` is a permission: a function may push x to q only if its
+// precondition grants it. It gives `&self` pushes a negative frame ("nothing
+// else is pushed"), which a monotone fact alone cannot express.
+pub uninterp spec fn push_allowed<T>(q: &SegQueue<T>, item: T) -> bool;
 impl<T> SegQueue<T> {
     #[verifier::external_body]
     pub fn push(&self, item: T)
+        requires push_allowed(self, item),
         ensures pushed(self, item),
     { unimplemented!() }
 
@@ -486,7 +491,8 @@ impl ResourceCert {
 }
 impl CaCert {
     #[verifier::external_body]
-    pub fn cert(&self) -> &ResourceCert { unimplemented!() }
+    pub fn cert(&self) -> (r: &ResourceCert) ensures r == self.cert_spec(),
+    { unimplemented!() }
 }
 impl ResourceCert {
     #[verifier::external_body]
@@ -515,5 +521,124 @@ impl ProviderAsSet {
     pub uninterp spec fn to_set_spec(&self) -> SmallAsnSet;
     #[verifier::external_body]
     pub fn to_set(&self) -> (r: SmallAsnSet) ensures r == self.to_set_spec(),
+    { unimplemented!() }
+}
+
+// ---- IP / AS resources of a certificate as lists of blocks
+impl IpBlock {
+    pub uninterp spec fn addrs_spec(&self) -> ISet<u128>;
+    // the block is the whole address family (prefix of length zero)
+    pub uninterp spec fn is_slash_zero_spec(&self) -> bool;
+    #[verifier::external_body]
+    pub fn is_slash_zero(&self) -> (r: bool) ensures r == self.is_slash_zero_spec(),
+    { unimplemented!() }
+}
+impl AsBlock {
+    pub uninterp spec fn is_whole_range_spec(&self) -> bool;
+    #[verifier::external_body]
+    pub fn is_whole_range(&self) -> (r: bool) ensures r == self.is_whole_range_spec(),
+    { unimplemented!() }
+}
+
+#[verifier::external_body] pub struct IpBlocksIter<'a> { _p: &'a IpBlocks }
+impl<'a> Iterator for IpBlocksIter<'a> {
+    type Item = IpBlock;
+    #[verifier::external_body]
+    fn next(&mut self) -> Option<IpBlock> { unimplemented!() }
+}
+#[verifier::external_body] pub struct AsBlocksIter<'a> { _p: &'a AsResources }
+impl<'a> Iterator for AsBlocksIter<'a> {
+    type Item = AsBlock;
+    #[verifier::external_body]
+    fn next(&mut self) -> Option<AsBlock> { unimplemented!() }
+}
+// ASSUMED model of std's Iterator::filter for these two iterators (declared as
+// inherent methods because the vstd specification of Filter could not be
+// inspected): the result yields exactly the items for which the predicate
+// closure returns true.
+#[verifier::external_body] #[verifier::reject_recursive_types(F)]
+pub struct FilteredIpBlocks<'a, F> { _p: &'a IpBlocks, _f: F }
+impl<'a, F: FnMut(&IpBlock) -> bool> Iterator for FilteredIpBlocks<'a, F> {
+    type Item = IpBlock;
+    #[verifier::external_body]
+    fn next(&mut self) -> Option<IpBlock> { unimplemented!() }
+}
+#[verifier::external_body] #[verifier::reject_recursive_types(F)]
+pub struct FilteredAsBlocks<'a, F> { _p: &'a AsResources, _f: F }
+impl<'a, F: FnMut(&AsBlock) -> bool> Iterator for FilteredAsBlocks<'a, F> {
+    type Item = AsBlock;
+    #[verifier::external_body]
+    fn next(&mut self) -> Option<AsBlock> { unimplemented!() }
+}
+impl<'a> IpBlocksIter<'a> {
+    #[verifier::external_body]
+    pub fn filter<F: FnMut(&IpBlock) -> bool>(self, f: F) -> (r: FilteredIpBlocks<'a, F>)
+        ensures
+            // only items on which the predicate can return true are yielded ...
+            forall|x: IpBlock| #[trigger] r.remaining().contains(x)
+                ==> (self.remaining().contains(x) && f.ensures((&x,), true)),
+            // ... and every item on which it cannot return false is yielded
+            forall|x: IpBlock| self.remaining().contains(x) && !f.ensures((&x,), false)
+                ==> #[trigger] r.remaining().contains(x),
+            r.obeys_prophetic_iter_laws(), r.decrease() is Some,
+    { unimplemented!() }
+}
+impl<'a> AsBlocksIter<'a> {
+    #[verifier::external_body]
+    pub fn filter<F: FnMut(&AsBlock) -> bool>(self, f: F) -> (r: FilteredAsBlocks<'a, F>)
+        ensures
+            // only items on which the predicate can return true are yielded ...
+            forall|x: AsBlock| #[trigger] r.remaining().contains(x)
+                ==> (self.remaining().contains(x) && f.ensures((&x,), true)),
+            // ... and every item on which it cannot return false is yielded
+            forall|x: AsBlock| self.remaining().contains(x) && !f.ensures((&x,), false)
+                ==> #[trigger] r.remaining().contains(x),
+            r.obeys_prophetic_iter_laws(), r.decrease() is Some,
+    { unimplemented!() }
+}
+impl IpBlocks {
+    pub uninterp spec fn blocks_spec(&self) -> Seq<IpBlock>;
+    #[verifier::external_body]
+    pub fn iter(&self) -> (r: IpBlocksIter<'_>)
+        ensures r.remaining() == self.blocks_spec(), r.obeys_prophetic_iter_laws(), r.decrease() is Some,
+    { unimplemented!() }
+}
+impl AsResources {
+    pub uninterp spec fn as_blocks_spec(&self) -> Seq<AsBlock>;
+    #[verifier::external_body]
+    pub fn iter(&self) -> (r: AsBlocksIter<'_>)
+        ensures r.remaining() == self.as_blocks_spec(), r.obeys_prophetic_iter_laws(), r.decrease() is Some,
+    { unimplemented!() }
+}
+impl ResourceCert {
+    pub uninterp spec fn v4_spec(&self) -> &IpBlocks;
+    pub uninterp spec fn v6_spec(&self) -> &IpBlocks;
+    pub uninterp spec fn asres_spec(&self) -> &AsResources;
+    #[verifier::external_body]
+    pub fn v4_resources(&self) -> (r: &IpBlocks) ensures r == self.v4_spec(),
+    { unimplemented!() }
+    #[verifier::external_body]
+    pub fn v6_resources(&self) -> (r: &IpBlocks) ensures r == self.v6_spec(),
+    { unimplemented!() }
+    #[verifier::external_body]
+    pub fn as_resources(&self) -> (r: &AsResources) ensures r == self.asres_spec(),
+    { unimplemented!() }
+}
+impl CaCert { pub uninterp spec fn cert_spec(&self) -> &ResourceCert; }
+
+// ---- rpki::repository::resources::IpBlocksBuilder: view = covered addresses
+#[verifier::external_body] pub struct IpBlocksBuilder { _opaque: () }
+impl IpBlocksBuilder {
+    pub uninterp spec fn addrs_spec(&self) -> ISet<u128>;
+    #[verifier::external_body]
+    pub fn new() -> (r: IpBlocksBuilder) ensures r.addrs_spec() == ISet::<u128>::empty(),
+    { unimplemented!() }
+    // (really `block: impl Into<IpBlock>`)
+    #[verifier::external_body]
+    pub fn push(&mut self, block: IpBlock)
+        ensures final(self).addrs_spec() == old(self).addrs_spec().union(block.addrs_spec()),
+    { unimplemented!() }
+    #[verifier::external_body]
+    pub fn finalize(self) -> (r: IpBlocks) ensures r.addrs_spec() == self.addrs_spec(),
     { unimplemented!() }
 }
